@@ -114,7 +114,13 @@ pub fn frame_spec_strategy(max_len: u32) -> BoxedStrategy<FrameSpec> {
         proptest::sample::select(&SUBSET_BPS[..]),
         pcm::channels_strategy(),
         subset_rate_strategy(),
-        prop_oneof![3 => 1u32..=64, 3 => 16u32..=max_len.max(17), 1 => proptest::sample::select(&[192u32, 256, 576, 1152, 4096, 4608][..])],
+        prop_oneof![
+            6 => 1u32..=64,
+            6 => 16u32..=max_len.max(17),
+            2 => proptest::sample::select(&[192u32, 256, 576, 1152, 4096, 4608][..]),
+            // beyond the streamable-subset limits (4608 at <= 48 kHz, 16384 otherwise): legal for a raw stream
+            1 => proptest::sample::select(&[4609u32, 8192, 16384, 16385, 40000, 65535][..]),
+        ],
         any::<u64>(),
     )
         .prop_flat_map(|(bps, nch, rate, frames, seed)| {
